@@ -76,6 +76,92 @@ func targetImpls(p *core.Prog, method string) []*ssa.Function {
 	return out
 }
 
+// checkRecordNotWrittenThrough implements R13.6.
+func checkRecordNotWrittenThrough(p *core.Prog, r *core.Result, m *evalModel, rule string) {
+	fromInfo := func(v ssa.Value) bool {
+		return core.DependsOn(v, core.SliceOpts{Stores: true}, func(x ssa.Value) bool {
+			if x == ssa.Value(m.InfoCall) {
+				return true
+			}
+			// the info handed to the dependency helper as a parameter
+			if prm, ok := x.(*ssa.Parameter); ok && m.DepsSite != nil && prm.Parent() == m.DepsFn {
+				if i := paramIndex(m.DepsFn, prm); i >= 0 && i < len(m.DepsSite.Call.Args) {
+					return core.DependsOn(m.DepsSite.Call.Args[i], core.SliceOpts{Stores: true}, func(y ssa.Value) bool { return y == ssa.Value(m.InfoCall) })
+				}
+			}
+			return false
+		})
+	}
+	var fresh func(v ssa.Value, seen map[ssa.Value]bool) bool
+	fresh = func(v ssa.Value, seen map[ssa.Value]bool) bool {
+		if seen[v] {
+			return true
+		}
+		seen[v] = true
+		switch x := v.(type) {
+		case *ssa.MakeMap:
+			return true
+		case *ssa.Phi:
+			for _, e := range x.Edges {
+				if !fresh(e, seen) {
+					return false
+				}
+			}
+			return len(x.Edges) > 0
+		case *ssa.UnOp:
+			if x.Op == token.MUL {
+				if al, ok := x.X.(*ssa.Alloc); ok {
+					n, all := 0, true
+					for _, ref := range *al.Referrers() {
+						if st, ok := ref.(*ssa.Store); ok && st.Addr == ssa.Value(al) {
+							n++
+							if !fresh(st.Val, seen) {
+								all = false
+							}
+						}
+					}
+					return n > 0 && all
+				}
+			}
+		}
+		return false
+	}
+	if m.DepData == nil {
+		r.Unk(rule, "dawn.(*runTarget).Evaluate#stamp-map", p.Pos(m.DepsFn.Pos()), "the map that collects the dependencies' stamps was not found")
+		return
+	}
+	r.Check(fresh(m.DepData, map[ssa.Value]bool{}) && !fromInfo(m.DepData), rule, "dawn.(*runTarget).Evaluate#stamp-map-is-fresh", p.Pos(m.DepsFn.Pos()), "the dependencies' current stamps are collected in a map made by this evaluation", "the dependencies' current stamps are written into a map that is (on some path) the Dependencies map of the record the target was loaded with: every evaluation - a dry run included - overwrites the recorded stamps in memory, so a dry run that announces a target because a recorded stamp is stale erases that evidence, and the next run on the same Project skips the target")
+	n := 0
+	for _, f := range m.fns() {
+		fns := []*ssa.Function{f}
+		if f == m.Fn && m.DepsFn != nil && m.DepsFn != f {
+			fns = append(fns, m.DepsFn)
+		}
+		for _, g := range fns {
+			core.Instrs(g, func(in ssa.Instruction) {
+				var subject ssa.Value
+				what := ""
+				switch x := in.(type) {
+				case *ssa.MapUpdate:
+					subject, what = x.Map, "a map update"
+				case *ssa.Call:
+					if b, ok := x.Call.Value.(*ssa.Builtin); ok && b.Name() == "delete" {
+						subject, what = x.Call.Args[0], "a delete"
+					}
+				}
+				if subject == nil {
+					return
+				}
+				n++
+				if fromInfo(subject) {
+					r.Bad(rule, fmt.Sprintf("%s#writes-loaded-record-%d", fname(g), n), p.InstrPos(in), "%s in the evaluation has a map of the loaded record (Target.info()) as its subject: the in-memory record is changed by every evaluation, dry runs included", what)
+				}
+			})
+		}
+	}
+	r.OK(rule, "dawn.(*runTarget).Evaluate#map-writes-examined", p.Pos(m.Fn.Pos()), "%d map update(s)/delete(s) in the evaluation examined: none has a map of the loaded record as its subject (violations are listed separately)", n)
+}
+
 // checkRecordRefreshed implements R3.9.
 func checkRecordRefreshed(p *core.Prog, r *core.Result, m *evalModel, rule string) {
 	// the field each implementation's info() returns
@@ -191,6 +277,7 @@ func runC13(p *core.Prog, r *core.Result) {
 		"R13.1 every call in (*runTarget).Evaluate from which a file-system or process effect is reachable (the body, the record writes) is on the not-dry-run edge; the up-to-date checks reach no such effect",
 		"R13.2 a dry run reports what a real run reports: it marks the visited target as assumed to change in this run (unconditionally; the dependency loop reads the mark) and reports success with changed=true, and every Target.evaluate implementation reports changed=true on success",
 		"R13.5 a dry run leaves nothing behind in memory that a later run reads: it does not write runTarget.changed (which real runs read and which is never reset), its own mark carries the number of the run, and that number advances before every run - so on a Project used for several runs (REPL, run() builtin, watch) a dry run does not change what the next real build does",
+		"R13.6 evaluating a target does not write into the record it was loaded with: the map that collects the dependencies' current stamps is created by the evaluation (make / a literal on every path), and no map update or delete in Evaluate's dependency code has a map taken from Target.info() as its subject - the record's Dependencies map is shared with the target's in-memory record, so updating it in place makes a dry run erase the evidence (a stale recorded stamp) that the next run on the same Project needs to find the target out of date",
 		"R13.3 the dry-run flag is assigned on every path of RunOptions.apply (it cannot leak into the next run)",
 		"R13.4 'evaluating' is reported before the dry-run test",
 	}
@@ -246,6 +333,9 @@ func runC13(p *core.Prog, r *core.Result) {
 			}
 		}
 	}
+
+	// R13.6 the loaded record is not written through
+	checkRecordNotWrittenThrough(p, r, m, "R13.6")
 
 	// R13.2
 	impls := targetImpls(p, "evaluate")
@@ -471,6 +561,7 @@ func runC03(p *core.Prog, r *core.Result) {
 		"R3.6 the build and watch commands never load from the index; Reload never does",
 		"R3.7 loading a target writes back exactly the record it read: a load (dry run, partial build, crash before the body) cannot erase a pending re-run",
 		"R3.9 what Evaluate records is what the target reports from then on: the Target interface has a method through which every implementation that keeps its record in a field replaces that field, and every record write of Evaluate hands the very record it wrote to that method - otherwise a Project that is used for several runs (run() in the REPL) decides the next run from the record read at load: a target whose body failed in a forced run is up to date again, and the build succeeds",
+		"R3.10 what depends on a target that executed in this build is re-executed, whatever stamp the execution ended with: a dependency counts as up to date only if it has a recorded stamp, did not execute in this build (the changed flag, set by every execution and never reset) and its stamp equals the recorded one (C01's R1.2 and R1.10) - a target interrupted inside its body, or failed, whose input is then reverted, lands on its earlier stamp; only the flag makes it and its dependents run again",
 		"R3.8 the stamp a re-executed target records depends on the stamps of the dependencies this evaluation used (not those of its previous record): a build that dies after the target's record was written and before its dependents' records were leaves the dependents out of date (shared with C01 R1.3)",
 	}
 	r.NotDecided = []string{"kernel-level atomicity/durability of rename (no fsync: the crash model is process death, not power loss)", "convergence of outputs after recovery"}
@@ -813,6 +904,31 @@ func runC03(p *core.Prog, r *core.Result) {
 
 	// ---- R3.7 a load cannot erase a pending re-run
 	checkLoadRewritesRead(p, r, "R3.7")
+
+	// ---- R3.10 dependents of a target that executed are re-executed (C01's R1.2 and R1.10)
+	{
+		sub := core.NewResult("C01")
+		runC01(p, sub)
+		n := 0
+		for _, o := range sub.Obls {
+			if o.Rule != "R1.2" && o.Rule != "R1.10" {
+				continue
+			}
+			if strings.HasPrefix(o.Construct, "rule#") {
+				continue
+			}
+			n++
+			switch o.Status {
+			case core.Discharged:
+				r.OK("R3.10", o.Construct, o.Pos, "%s", o.Detail)
+			case core.Violated:
+				r.Bad("R3.10", o.Construct, o.Pos, "%s", o.Detail)
+			case core.Undecided:
+				r.Unk("R3.10", o.Construct, o.Pos, "%s", o.Detail)
+			}
+		}
+		r.Floor("R3.10", n, 3, "obligations on the dependency verdict and the changed flag")
+	}
 
 	// ---- R3.9 the record written becomes the record reported
 	checkRecordRefreshed(p, r, m, "R3.9")
